@@ -506,3 +506,175 @@ Proof.
     destruct (a_lookup name b) as [[x|sub']|] eqn:E; eauto.
     exfalso; exact (Hcompat x eq_refl).
 Qed.
+
+(* ---- string lists ------------------------------------------------------------------------------------ *)
+Definition all_leaves (b : bucket) : Prop := Forall (fun kn : str * node => exists v, snd kn = Leaf v) b.
+
+Lemma a_insert_forall (V : Type) (P : str * V -> Prop) k v (l : list (str * V)) :
+  Forall P l -> P (k, v) -> Forall P (a_insert k v l).
+Proof.
+  intros Hl Hk. induction l as [|[k' v'] t IH]; cbn.
+  - constructor; [exact Hk | constructor].
+  - inversion Hl; subst. destruct (str_cmp k k'); constructor; auto.
+Qed.
+
+Definition elem_ok (s : str) : Prop := len s + 1 <= MaxKeySize.
+
+Lemma fill_string_list_spec : forall (l : list str) (acc : bucket),
+  Forall elem_ok l -> all_leaves acc -> Sorted str_lt (a_keys acc) ->
+  exists c, fill_string_list l acc = Ok c /\ all_leaves c /\ Sorted str_lt (a_keys c) /\
+    (forall k, In k (a_keys c) <-> In k (a_keys acc) \/ exists s, In s l /\ k = prepend_field_type TypeString s).
+Proof.
+  induction l as [|s t IH]; intros acc Hok Hleaves Hsorted.
+  - exists acc. split; [reflexivity|]. split; [exact Hleaves|]. split; [exact Hsorted|].
+    intros k. split; [intros H; left; exact H | intros [H|(s & [] & _)]; exact H].
+  - inversion Hok as [|? ? Hs Hok']; subst. cbn [fill_string_list]. unfold b_put at 1.
+    unfold prepend_field_type at 1 2. change (len (TypeString :: s) =? 0) with (N.of_nat (S (length s)) =? 0).
+    replace (N.of_nat (S (length s)) =? 0) with false by (symmetry; apply N.eqb_neq; lia).
+    replace (MaxKeySize <? len (TypeString :: s)) with false
+      by (symmetry; apply N.ltb_ge; unfold elem_ok, len in *; cbn [length]; lia).
+    change (MaxValueSize <? len []) with false. cbv iota.
+    assert (Hnsub : forall sub, a_lookup (prepend_field_type TypeString s) acc <> Some (Sub sub)).
+    { intros sub E. apply a_lookup_in in E. unfold all_leaves in Hleaves. rewrite Forall_forall in Hleaves.
+      destruct (Hleaves _ E) as (v & Hv). discriminate. }
+    destruct (a_lookup (prepend_field_type TypeString s) acc) as [[x|sub]|] eqn:E;
+      [| exfalso; exact (Hnsub sub eq_refl) |]; cbn [bind].
+    all: destruct (IH (a_insert (prepend_field_type TypeString s) (Leaf []) acc) Hok') as (c & Hc & Hl & Hso & Hin);
+      [ apply a_insert_forall; [exact Hleaves | exists []; reflexivity]
+      | apply a_insert_sorted; exact Hsorted
+      | exists c; split; [exact Hc|]; split; [exact Hl|]; split; [exact Hso|];
+        intros k; rewrite Hin, a_insert_keys_in; split;
+        [ intros [[->|H]|(s' & Hs' & ->)];
+          [ right; exists s; split; [left; reflexivity | reflexivity]
+          | left; exact H
+          | right; exists s'; split; [right; exact Hs' | reflexivity] ]
+        | intros [H|(s' & [<-|Hs'] & ->)];
+          [ left; right; exact H
+          | left; left; reflexivity
+          | right; exists s'; split; [exact Hs' | reflexivity] ] ] ].
+Qed.
+
+Definition strip (k : str) : str := snd (get_type_and_value k).
+
+Lemma strip_cons ft s : strip (ft :: s) = s.
+Proof. reflexivity. Qed.
+
+Lemma sorted_strip (ks : list str) :
+  Sorted str_lt ks -> (forall k, In k ks -> exists s, k = TypeString :: s) -> Sorted str_lt (map strip ks).
+Proof.
+  induction 1 as [|a t Hs IH Hd]; intros Hform; cbn [map]; constructor.
+  - apply IH. intros k Hk. apply Hform. right; exact Hk.
+  - destruct t as [|b t']; cbn [map]; constructor.
+    inversion Hd as [|? ? Hab]; subst.
+    destruct (Hform a (or_introl eq_refl)) as (sa & ->).
+    destruct (Hform b (or_intror (or_introl eq_refl))) as (sb & ->).
+    rewrite !strip_cons. unfold str_lt in *. rewrite str_cmp_cons in Hab. exact Hab.
+Qed.
+
+(* SetStringList then GetStringList: the elements, each once, in ascending byte order *)
+Lemma string_list_node_spec (l : list str) :
+  Forall elem_ok l ->
+  exists c, string_list_node l = Ok (Sub c) /\
+    Sorted str_lt (read_string_list c) /\ (forall s, In s (read_string_list c) <-> In s l).
+Proof.
+  intros Hok.
+  destruct (fill_string_list_spec l [] Hok) as (c & Hc & _ & Hso & Hin); [constructor | constructor |].
+  exists c. unfold string_list_node. rewrite Hc. cbn [bind]. split; [reflexivity|].
+  assert (Hform : forall k, In k (a_keys c) -> exists s, k = TypeString :: s).
+  { intros k Hk. apply Hin in Hk. destruct Hk as [[]|(s & _ & ->)]. exists s. reflexivity. }
+  unfold read_string_list. fold strip. split.
+  - change (map (fun k : str => snd (get_type_and_value k)) (a_keys c)) with (map strip (a_keys c)).
+    apply sorted_strip; assumption.
+  - intros s. change (map (fun k : str => snd (get_type_and_value k)) (a_keys c)) with (map strip (a_keys c)).
+    rewrite in_map_iff. split.
+    + intros (k & <- & Hk). apply Hin in Hk. destruct Hk as [[]|(s' & Hs' & ->)]. exact Hs'.
+    + intros Hs. exists (prepend_field_type TypeString s). split; [reflexivity|].
+      apply Hin. right. exists s. split; [exact Hs | reflexivity].
+Qed.
+
+(* an independent, executable description of "sorted, duplicate-free" *)
+Definition sort_dedup (l : list str) : list str :=
+  a_keys (fold_left (fun acc s => a_insert s tt acc) l []).
+
+Lemma sort_dedup_spec_gen : forall (l : list str) (acc : list (str * unit)),
+  Sorted str_lt (a_keys acc) ->
+  Sorted str_lt (a_keys (fold_left (fun acc s => a_insert s tt acc) l acc)) /\
+  (forall s, In s (a_keys (fold_left (fun acc s => a_insert s tt acc) l acc)) <-> In s (a_keys acc) \/ In s l).
+Proof.
+  induction l as [|x t IH]; intros acc Hs; cbn [fold_left].
+  - split; [exact Hs | intros s; split; [intros H; left; exact H | intros [H|[]]; exact H]].
+  - destruct (IH (a_insert x tt acc) (a_insert_sorted _ _ _ Hs)) as [H1 H2]. split; [exact H1|].
+    intros s. rewrite H2, a_insert_keys_in. cbn [In]. split.
+    + intros [[->|H]|H]; [right; left; reflexivity | left; exact H | right; right; exact H].
+    + intros [H|[<-|H]]; [left; right; exact H | left; left; reflexivity | right; exact H].
+Qed.
+
+Lemma sort_dedup_spec (l : list str) :
+  Sorted str_lt (sort_dedup l) /\ (forall s, In s (sort_dedup l) <-> In s l).
+Proof.
+  destruct (sort_dedup_spec_gen l [] ltac:(constructor)) as [H1 H2]. split; [exact H1|].
+  intros s. unfold sort_dedup. rewrite H2. cbn. tauto.
+Qed.
+
+Lemma strlist_roundtrip_lemma c name (l : list str) b b' :
+  Forall elem_ok l -> proceed c name = true -> apply_op c (OpStringList name l) b = Ok b' ->
+  get_string_list name b' = sort_dedup l.
+Proof.
+  intros Hok Hp H.
+  destruct (apply_op_proceeds c (OpStringList name l) b b') as (n & Hn & Hl & _);
+    [unfold op_proceeds; cbn; exact Hp | exact H |].
+  cbn [op_node op_name] in Hn, Hl.
+  destruct (string_list_node_spec l Hok) as (sub & Hsub & Hso & Hin). rewrite Hsub in Hn. inversion Hn; subst n.
+  unfold get_string_list. rewrite Hl.
+  destruct (sort_dedup_spec l) as [S2 I2].
+  apply sorted_unique; [exact Hso | exact S2 |]. intros x. rewrite Hin, I2. tauto.
+Qed.
+
+Lemma strlist_write_succeeds c name (l : list str) b :
+  Forall elem_ok l -> name <> [] -> (forall x, a_lookup name b <> Some (Leaf x)) ->
+  exists b', apply_op c (OpStringList name l) b = Ok b'.
+Proof.
+  intros Hok H1 H2. unfold apply_op. destruct (op_proceeds c (OpStringList name l)); [|eauto].
+  cbn [op_node op_name]. destruct (string_list_node_spec l Hok) as (sub & -> & _). cbn [bind place].
+  unfold b_put_bucket. rewrite (proj2 (len_zero_iff name) H1).
+  destruct (a_lookup name b) as [[x|sub']|] eqn:E; eauto. exfalso; exact (H2 x eq_refl).
+Qed.
+
+(* ---- the scalar round trip through a bucket ------------------------------------------------------------ *)
+Lemma field_roundtrip_bucket c name v b b' :
+  wf_scalar v = true -> proceed c name = true -> apply_op c (OpScalar name v) b = Ok b' ->
+  read_own v (get_bytes name b') = Some (widen v) /\ get_marshaled name b' = VS v.
+Proof.
+  intros Hw Hp H. split.
+  - rewrite (scalar_field_written _ _ _ _ _ Hp H). apply field_roundtrip_lemma. exact Hw.
+  - destruct (apply_op_proceeds c (OpScalar name v) b b') as (n & Hn & Hl & _);
+      [unfold op_proceeds; cbn; exact Hp | exact H |].
+    cbn in Hn, Hl. inversion Hn; subst n. unfold get_marshaled. rewrite Hl. cbn [get_node].
+    rewrite (decode_encode_scalar _ Hw). reflexivity.
+Qed.
+
+(* SetNil / SetStringP(nil) against SetString(""): different bytes, different reads *)
+Lemma nil_vs_empty_bucket c name b b1 b2 :
+  proceed c name = true ->
+  apply_op c (OpScalar name SNil) b = Ok b1 -> apply_op c (OpScalar name (SString [])) b = Ok b2 ->
+  get_string name b1 = SVal None /\ get_string name b2 = SVal (Some []) /\
+  get_bytes name b1 <> get_bytes name b2 /\
+  get_marshaled name b1 = VS SNil /\ get_marshaled name b2 = VS (SString []).
+Proof.
+  intros Hp H1 H2.
+  pose proof (scalar_field_written _ _ _ _ _ Hp H1) as E1.
+  pose proof (scalar_field_written _ _ _ _ _ Hp H2) as E2.
+  unfold get_string. rewrite E1, E2.
+  split; [reflexivity|]. split; [reflexivity|]. split; [cbn; discriminate|].
+  split.
+  - exact (proj2 (field_roundtrip_bucket _ _ SNil _ _ eq_refl Hp H1)).
+  - exact (proj2 (field_roundtrip_bucket _ _ (SString []) _ _ eq_refl Hp H2)).
+Qed.
+
+(* SetNil takes no checker: it always writes the nil marker *)
+Lemma set_nil_written c name b b' :
+  apply_op c (OpNil name) b = Ok b' -> get_bytes name b' = encode_scalar SNil.
+Proof.
+  intros H. destruct (apply_op_proceeds c (OpNil name) b b') as (n & Hn & Hl & _); [reflexivity | exact H |].
+  cbn in Hn, Hl. inversion Hn; subst n. unfold get_bytes. rewrite Hl. reflexivity.
+Qed.
